@@ -211,3 +211,7 @@ def run(prog, rep, tier):
         ok = ok and not any(bb in r for bb, _ in oks)
     rep.ob('R02.4', bool(ok), 'R02.4|%s|unfinished-files-reported' % body.nkey, 'a non-empty unfinished list always replaces the status by UnfinishedFiles before Ok is returned' if ok else
            'repair can return a status other than UnfinishedFiles although some files were closed incomplete', body.loc())
+
+
+def thorough_extra(rep, verif, repo):
+    return c08.clippy_superset(rep, verif, repo, 'R02.1x', ['mla'])
